@@ -494,6 +494,41 @@ def r4_idle_path(ctx):
         ctx.check(okb, 'set-busy-until', 'set_busy_until sets the busy flag and the finish time', g.where())
 
 
+def r8_created_idle(ctx):
+    """a channel object is always created idle: only send_message marks it busy (paired with an unbusy notification, R4), so a busy
+    flag copied into a fresh ChannelInner (e.g. `..*self` in dup) would never be cleared"""
+    ctx.set_rule('C07.R8')
+    P = ctx.P
+    kind, name = _busy_repr(P)
+    bk, _ = _busy_adt(P)
+    n = 0
+    for f in P.fn_list:
+        if not (f.key.startswith(CH) or f.key.startswith('<' + CH)) or f.kind == 'promoted':
+            continue
+        for b in sorted(f.reachable()):
+            for i, st in enumerate(f.stmts(b)):
+                if st['k'] != 'assign' or st['r']['k'] != 'agg' or not str(st['r'].get('adt', '')).endswith('channel::ChannelInner'):
+                    continue
+                n += 1
+                comp = dict(zip(st['r'].get('fields', []), [f.expr_operand(o, b, i) for o in st['r']['ops']]))
+                v = None
+                if name in comp:
+                    v = peel(comp[name])
+                else:
+                    for fv in comp.values():
+                        fv = peel(fv)
+                        if fv[0] == 'constdef' and fv[1] in P.fns:
+                            cf = P.fns[fv[1]]
+                            rb = cf.return_blocks()
+                            fv = peel(cf.expr_local(0, rb[0], 'T')) if len(rb) == 1 else fv
+                        if fv[0] == 'agg' and len(fv) > 3 and name in fv[3]:
+                            v = peel(fv[2][list(fv[3]).index(name)])
+                idle = v is not None and ((kind == 'flag' and v == ('int', 0)) or (kind == 'opt' and v[0] == 'agg' and str(v[1]).endswith('Option::None')))
+                ctx.check(idle, 'created-idle:%s' % f.key.split('::')[-1], 'a ChannelInner is constructed with the transmitter idle (a constant), never with a copied busy state',
+                          f.where(b), show(v)[:120] if v is not None else None)
+    ctx.floor('ChannelInner constructions', n, 2)
+
+
 def r5_unbusy(ctx):
     ctx.set_rule('C07.R5')
     f = ctx.anchor(CH + 'Channel::unbusy')
@@ -614,4 +649,5 @@ def run(ctx):
     r3_byte_accounting(ctx)
     r4_idle_path(ctx)
     r5_unbusy(ctx)
+    r8_created_idle(ctx)
     r6_duration(ctx)
